@@ -30,7 +30,7 @@ func init() {
 		Real:       append(append([]string{}, realAll...), "db/fs (compiled against the simulated os)", "db/postgres"),
 		Stub:       append(append([]string{}, stubAll...), "reference model refvm (oracle)", "OS filesystem (simfs)", "Postgres server (pgfake)"),
 		HangIsViolation: true, // the property promises that requests are served
-		FaultKinds: []string{"template_lookup_error", "restart", "ext_terminate", "ext_error", "ext_flags", "client_garbage"},
+		FaultKinds: []string{"template_lookup_error", "client_write_error", "restart", "ext_terminate", "ext_error", "ext_flags", "client_garbage"},
 	})
 }
 
@@ -78,6 +78,7 @@ func runC20(c *core.Ctx) *core.Outcome {
 		}
 		clear := t.Chance(1, 6)
 		tplFault := t.Chance(1, 8)
+		wrFault := t.Chance(1, 8)
 		emptyIn := t.Chance(1, 3)
 		t.End()
 		wasEnded, wasBlocked := r.m.Ended, r.m.Blocked
@@ -95,6 +96,10 @@ func runC20(c *core.Ctx) *core.Outcome {
 			clearTerminate(r)
 			o.Probes["terminate_cleared_by_harness"]++
 			break
+		}
+		if wrFault && !wasBlocked && !tplFault {
+			// ... or it is rendered and cannot be written: the client has hung up
+			r.s.FailWriteThisRequest = true
 		}
 		if tplFault && !wasBlocked {
 			// the page of this request cannot be rendered (template store down): whatever the request
